@@ -426,6 +426,51 @@ def evaluatePolysOver (rops : Ops β (Array β)) (B : BaseOps β) (zero : β) (m
     | none => none
     | some offsets => rowMatrixFromPolys rops B.mul zero maxLoop N polys polySize offsets tw
 
+/-! ## caller-supplied storage: `Segment::new_with_buffer`, `RowMatrix::from_segments` -/
+
+/-- rows of chunk `c` written into the caller's buffer `buf`: slots `i < numPolys` are overwritten with
+    `coeff * offsets[row]` (zero coefficients included), the other slots keep what the buffer held -/
+def segmentChunkBuf (mul : β → β → β) (N numPolys : Nat) (polys : Array (Array β))
+    (polySize polyOffset : Nat) (offsets : Array β) (buf : Array (Array β)) (c : Nat) : Option (Array (Array β)) :=
+  buildArr (fun row =>
+    match offsets[c * polySize + row]?, buf[c * polySize + row]? with
+    | some off, some old =>
+      buildArr (fun i =>
+        if i < numPolys then
+          match polys[polyOffset + i]? with
+          | some col => (col[row]?).map (fun coeff => mul coeff off)
+          | none => none
+        else old[i]?) N
+    | _, _ => none) polySize
+
+/-- `Segment::new_with_buffer(data_buffer, polys, poly_offset, offsets, twiddles)` -/
+def segmentNewWithBuffer (rops : Ops β (Array β)) (mul : β → β → β) (maxLoop N : Nat)
+    (buf : Array (Array β)) (polys : Array (Array β)) (polySize polyOffset : Nat) (offsets tw : Array β) :
+    Option (Array (Array β)) :=
+  let domainSize := offsets.size
+  if ¬ (isPow2 domainSize ∧ domainSize > polySize ∧ polySize = tw.size * 2 ∧ polyOffset < polys.size
+        ∧ buf.size = domainSize) then none else
+  if polySize = 0 then none else
+  let numPolys := min (polys.size - polyOffset) N
+  (forRange (fun c (res : Array (Array β)) =>
+      match segmentChunkBuf mul N numPolys polys polySize polyOffset offsets buf c with
+      | none => none
+      | some ch => (fftTop rops maxLoop tw ch).map (res ++ ·))
+    0 (domainSize / polySize) (Array.mkEmpty domainSize)).bind permute
+
+/-- `RowMatrix::from_segments::<N>(segments, elements_per_row)` -/
+def rowMatrixFromSegments (N : Nat) (segs : Array (Array (Array β))) (elementsPerRow : Nat) : Option (RowMat β) :=
+  if N = 0 then none else
+  if segs.size = 0 then none else
+  let rowWidth := segs.size * N
+  if elementsPerRow > rowWidth then none else
+  match segs[0]? with
+  | none => none
+  | some s0 =>
+    match (transposeSegments segs s0.size).bind flattenRows with
+    | none => none
+    | some d => some { data := d, rowWidth := rowWidth, elementsPerRow := elementsPerRow }
+
 /-! ## `StarkDomain::new(&air)`: a domain whose constraint-evaluation blowup differs from its LDE blowup -/
 
 /-- `usize::next_power_of_two` (`0` and `1` give `1`) -/
